@@ -262,7 +262,7 @@ def r4(ctx, F):
             tr, fa = bool_edges(sb, st)
             tr_true |= tr
         gets = [(gb, gt) for gb, gt in fl.calls(lambda c: c.startswith('std::collections::BTreeMap') and not c.endswith('::keys') and not c.endswith('::len'))
-                if mentions(fl.origins(gt['args'][0]), base)]
+                if gt['args'] and mentions(fl.origins(gt['args'][0]), base)]
         # (looking a path up in `base` is harmless by itself; what matters is which value reaches reconcile_path - judged below)
         # any other use of base (iteration etc.); handing it to a closure of this function is not a use - that closure is judged itself
         for bi in cfg.reachable():
@@ -343,6 +343,11 @@ def r4(ctx, F):
                             good = False
                             why.append('the closure %s can yield a base entry without testing the trust flag it captured' % cbody.path.split('::')[-1])
                             continue
+                        if c_.startswith('std::collections::BTreeMap') and c_.endswith('::get') and data['args'] and _gated_archive(F, b, data['args'][0], base, trust):
+                            # `let archive = if trust_base { base } else { &empty }; .. archive.get(p)`: the map that is asked is the
+                            # base only behind trust_base == true and an empty map otherwise - every lookup misses in safe mode
+                            has_none[0] = True
+                            continue
                         if c_.split('::')[-1] in ('copied', 'cloned', 'as_ref', 'map', 'filter', 'and_then', 'then', 'then_some'):
                             # Option combinators: the value exists only if their receiver / condition does
                             if c_.split('::')[-1] in ('then', 'then_some') and is_slot(fl.origins(data['args'][0]), trust):
@@ -360,6 +365,55 @@ def r4(ctx, F):
                       term_loc(b, cb))
     if not n_rp:
         ctx.missing('C07.R4', 'reconcile -> reconcile_path')
+
+
+def _gated_archive(F, body, op, base, trust):
+    """the map operand is a variable of reconcile (possibly captured) that is `base` only on the true edge of trust_base and a
+    freshly made empty map on the other: origins = {the base parameter, BTreeMap::new / default}, and every assignment that
+    copies the base parameter into it sits behind trust_base == true"""
+    from rules import C04
+    cos = [(pb, o) for pb, o in C04.capture_origins(F, body, op) if o.kind != 'comb']
+    if not cos:
+        return False
+    has_base = has_empty = False
+    for pb, o in cos:
+        if o.kind in ('param', 'upvar') and fn_param_slot(F, pb, o) == base:
+            has_base = True
+        elif o.kind == 'call' and str(o.key).split('::')[-1] in ('new', 'default') and ('BTreeMap' in str(o.key) or 'Default' in str(o.key)) and not pb.blocks[o.bb]['term']['args']:
+            has_empty = True
+        else:
+            return False
+    if not (has_base and has_empty):
+        return False
+    # in the body that merges the two: every statement that takes the base parameter as is must be behind trust == true
+    for pb in {pb for pb, o in cos}:
+        pfl = flow_of(pb)
+        tr_true = set()
+        for sb, st in switch_blocks_on(pfl, lambda os_: bool([o for o in os_ if o.kind != 'comb']) and all(o.kind in ('param', 'upvar') and fn_param_slot(F, pb, o) == trust for o in os_ if o.kind != 'comb')):
+            tr, fa = bool_edges(sb, st)
+            tr_true |= tr
+        if not tr_true:
+            return False
+        merged = False
+        for bi in pfl.cfg.reachable():
+            for st in pb.blocks[bi]['stmts']:
+                rv = st['rv']
+                if rv['k'] not in ('use', 'ref'):
+                    continue
+                src = rv['ops'][0] if rv['k'] == 'use' and rv.get('ops') else ({'k': 'copy', 'p': rv['p']} if rv['k'] == 'ref' else None)
+                if src is None or src['k'] == 'const':
+                    continue
+                so = [o for o in pfl.origins(src) if o.kind != 'comb']
+                if so and all(o.kind in ('param', 'upvar') and fn_param_slot(F, pb, o) == base for o in so):
+                    # a copy of the base parameter: into the merged variable (whose origins also hold the empty map)?
+                    do = [o for o in pfl.origins({'k': 'copy', 'p': {'l': st['dst']['l'], 'proj': []}}) if o.kind != 'comb']
+                    if any(o.kind == 'call' for o in do):
+                        merged = True
+                        if not pfl.cfg.edges_guard(tr_true, bi):
+                            return False
+        if not merged:
+            return False
+    return True
 
 
 RESOLVERS = ('std::fs::canonicalize', 'std::path::Path::canonicalize', 'tokio::fs::canonicalize', 'std::fs::read_link')
